@@ -13,6 +13,7 @@ CONSTANTS
   Deviation = "@DEV@"
   MaxClock = @MAXCLOCK@
   CallTO = @CALLTO@
+  CtxDL = @CTXDL@
   XCfgs <- MCXCfgs
 INVARIANT Inv DisabledOnce NilOnlyAfterSuccess
 PROPERTY Terminates
